@@ -21,16 +21,19 @@ FUEL = 300  # recursion depth given to the model; generated trees are far shallo
 
 SEGS = ["a", "b", "c", "q"]
 IDS = ["s1", "s2", "web-1"]
-PDATAS = [{}, {"role": "web"}, {"role": "db", "n": {"x": 1}}]
+PDATAS = [{}, {"role": "web"}, {"role": "db", "n": {"x": 1}}, {"role": "web", "flag": False, "count": 0}]
 CONDS = [None, None, None, ["id", "s1"], ["id", "web-1"], ["nid", "s1"], ["data", "role", "web"]]
 TOP_EXPRS = ["*", "s1", "s*", "web-* or s2", "not s1", "@data_literal:role@web", "@data_glob:role@d*",
-             "* and not @data_literal:role@db", "S1", "@id_literal@s2", "(s1 or s2) and not web-*"]
+             "* and not @data_literal:role@db", "S1", "@id_literal@s2", "(s1 or s2) and not web-*",
+             "@data_literal:flag@False", "not @data_glob:count@0", "@data_glob/i:flag@f* and s*"]
 
 TRUSTED_BASE = [
     "Lean 4.33 kernel; axioms of every property theorem audited to be within propext/Classical.choice/Quot.sound",
     "PyYAML and Jinja2 (and vinegar's Jinja engine wrapper) are shared with the implementation: the adapter renders "
     "and parses every file with the real libraries and ships the parsed result (or the failure) to the model",
-    "vinegar.utils.system_matcher (target expressions) is evaluated by the adapter with the real matcher (C18 owns it)",
+    "vinegar.utils.system_matcher (target expressions): the model receives the real matcher's verdicts as facts (C18 owns the "
+    "matcher); for C11 every such verdict is additionally compared with the Lean matcher model (`Matcher.parse` + "
+    "`evalConcrete`: literal and bracket-free glob terms on ASCII text; regular expressions stay with C18)",
     "harness: sandbox trees with deterministic mtime bumps (sim_fs.py), generators, value tagging, the compiled driver",
     "hash functions of vinegar.utils.version: injectivity is a hypothesis of the C12 theorems (no hash collisions)",
 ]
